@@ -685,6 +685,10 @@ class Executor:
             res = self.expr_typed(ev, value_node, self.ret_t if self.ret_t != NONE else None)
         if self.ret_t is not None and res.t != self.ret_t:
             res = coerce_to(res, self.ret_t)
+        if res.t not in (INT, REAL, BOOL, NONE) and not (z3.is_const(res.z) and res.z.decl().kind() == z3.Z3_OP_UNINTERPRETED):
+            named = fresh(res.t, "result")  # a name for the returned value, so that triggers over it are legal
+            st.pc.append(named.z == res.z)
+            res = named
         for g, gexpr in self.spec.ghost_return.items():
             st.vars[g] = self.spec_value(gexpr, st, old=self.old, result=res)
         self.n_ret += 1
